@@ -551,6 +551,39 @@ def job_history(job, scratch):
     return {"obs": obs}
 
 
+@world.job_kind("c11.cover")
+def job_cover(job, scratch):
+    """Which repository lines does a cfg execute?  (Each line event is disabled after its
+    first hit, so this costs little more than the run.)  Used to choose a pool of cfgs
+    that reaches as many branches as possible; never part of a verdict."""
+    import sys as _sys
+
+    mon = _sys.monitoring
+    tool = 3
+    pkg = world.REPO_PKG_DIR
+    hit = {}
+
+    def on_line(code, line):
+        fn = code.co_filename
+        if fn.startswith(pkg):
+            hit.setdefault(fn[len(pkg):], set()).add(line)
+        return mon.DISABLE
+
+    from checks import c12
+
+    mon.use_tool_id(tool, "cover")
+    mon.register_callback(tool, mon.events.LINE, on_line)
+    mon.set_events(tool, mon.events.LINE)
+    try:
+        o = c12.execute_run({"cfg": job["cfg"], "entry": "run_pdb2pqr"}, scratch, 0, None,
+                            use_monitor=False)
+    finally:
+        mon.set_events(tool, 0)
+        mon.register_callback(tool, mon.events.LINE, None)
+        mon.free_tool_id(tool)
+    return {"outcome": o["outcome"], "lines": {f: sorted(v) for f, v in sorted(hit.items())}}
+
+
 @world.job_kind("c11.ref")
 def job_ref(job, scratch):
     from checks import c12
@@ -616,12 +649,52 @@ def main(tier, seed):
     n_pool = 84 if quick else 600
     n_hist = 220 if quick else 6000
     deadline = t0 + (200 if quick else 45 * 60)
+    # ---- coverage-guided choice of base cfgs: draw many candidates, run each once under a
+    # cheap line-coverage probe, and keep greedily those that reach repository lines no
+    # earlier pick reached (rare branches are where in-place mutations of shared state
+    # hide); the rest of the pool is filled with further random candidates.
+    n_cand = 260 if quick else 2400
+    cands = []
+    cseen = set()
+    while len(cands) < n_cand:
+        c = gen_cfg(rng)
+        k = corpus.cfg_key(c)
+        if k not in cseen:
+            cseen.add(k)
+            cands.append(c)
+    cover_stats = {"candidates": n_cand, "lines_reached": 0, "picked_for_coverage": 0}
+    picked = []
+    try:
+        cres, _ = driver.run_simple(
+            [{"id": f"v{i}", "kind": "c11.cover", "cfg": c} for i, c in enumerate(cands)],
+            par=16, env_extra={"PYTHONHASHSEED": "0"}, job_timeout=300,
+            deadline=t0 + (60 if quick else 600))
+        cov = {}
+        for i in range(n_cand):
+            m = cres.get(f"v{i}", {})
+            if "result" in m:
+                cov[i] = {(f, ln) for f, lns in m["result"]["lines"].items() for ln in lns}
+        covered = set()
+        remaining = dict(cov)
+        while remaining:
+            best = max(sorted(remaining), key=lambda i: len(remaining[i] - covered))
+            gain = len(remaining[best] - covered)
+            if gain == 0:
+                break
+            covered |= remaining.pop(best)
+            picked.append(best)
+        cover_stats["lines_reached"] = len(covered)
+        cover_stats["picked_for_coverage"] = len(picked)
+    except driver.HarnessError:
+        picked = []
+    order = picked + [i for i in range(n_cand) if i not in set(picked)]
+    base_iter = iter([cands[i] for i in order])
     # the pool is made of families: a base cfg plus 1-2 siblings on the same structure
     pool = []
     families = []
     seen = set()
     while len(pool) < n_pool:
-        base = gen_cfg(rng)
+        base = next(base_iter, None) or gen_cfg(rng)
         fam = []
         sibs = [one_axis_sibling(rng, base)]
         if rng.random() < 0.5:
@@ -935,6 +1008,7 @@ def main(tier, seed):
             "in_place_runs", "ambient_varied_runs")},
         "ambient_axes_varied": stats["ambient_axes"],
         "cfg_families": len(families),
+        "coverage_guided_pool": cover_stats,
         "family_sweep_histories": sum(1 for h in hists if h["id"].startswith("hf")),
         "grand_tour_histories": sum(1 for h in hists if h["id"].startswith("ht")),
         "distinct_states": {"measure": "distinct (previous operation kind -> revisited cfg) "
